@@ -381,7 +381,8 @@ fn explore_graph(report: &Report, c: &Counters, spec: &GraphSpec, assignments: b
             Op::RemoveEdge(j) => {
                 live.remove(j as usize);
             }
-            Op::RenewNode(s) => live.retain(|(_, a, b)| *a != s && *b != s),
+            Op::RenewNode(s) | Op::DropNode(s) => live.retain(|(_, a, b)| *a != s && *b != s),
+                    Op::AddNode => {}
         }
     }
     let mut pos = 0i64;
